@@ -128,6 +128,8 @@ func runSeq(prop string) *ShardResult {
 			return append(ops, core.Op{K: "R"})
 		}
 	}
+	sc.Lazy = prop != "C20"
+	res.Bounds["lazy_rotation_variant"] = sc.Lazy
 	res.Bounds["depth"] = sc.Depth
 	res.Bounds["real_stack_depth"] = sc.RealDepth
 	res.Bounds["configs"] = cfgs
@@ -141,6 +143,7 @@ func runSeq(prop string) *ShardResult {
 		res.Counts["sequences"] += int64(st.Sequences)
 		res.Counts["steps"] += int64(st.Steps)
 		res.Counts["real_stack_runs"] += int64(st.RealRuns)
+		res.Counts["lazy_rotation_runs"] += int64(st.LazyRuns)
 		res.Counts["evaluations"] += int64(st.Sequences)
 		res.Counts["transitions"] += int64(st.Steps)
 		res.Counts["traces_validated"] += int64(st.Sequences + st.RealRuns)
